@@ -485,6 +485,28 @@ def run_grid(ctx, scen_sets, obs_mask, prop, chunk=None, timeout=240, variant="h
             # abnormal exit: the last started scenario is the one that crashed
             nstarted = sum(1 for r in rows if r.get("e") == "Reset")
             bad = start + max(nstarted - 1, 0)
+            if p.timed_out:
+                # the time limit covers the whole chunk: on a loaded machine it can expire although nothing hangs.
+                # Only a scenario that does not finish on its own, with a generous limit, is a hang.
+                one_s, one_t = sp + ".one", tp + ".one"
+                open(one_s, "w").write(scen_texts[bad])
+                if driver == "cli_replay.cpp":
+                    p1 = vf.sh([drv, one_s, one_t, os.path.join(lib, "tasgrid"), own], timeout=max(timeout, 600), env=env)
+                else:
+                    p1 = vf.sh([drv, one_s, one_t, str(obs_mask), wd], timeout=max(timeout, 600), env=env)
+                if p1.returncode == 0:
+                    keep1, cur1 = [], []
+                    for r in rows:
+                        if r.get("e") == "Reset":
+                            cur1 = []
+                        cur1.append(r)
+                        if r.get("e") == "End":
+                            keep1 += cur1
+                            cur1 = []
+                    done_rows += keep1 + vf.read_ndjson_lenient(one_t)
+                    start = bad + 1
+                    attempts -= 1        # not a failure of the library
+                    continue
             # keep the complete executions only
             keep, cur = [], []
             for r in rows:
